@@ -108,3 +108,59 @@ Proof.
     + inversion Hev; subst; exact I.
     + inversion Hev; subst; exact I.
 Qed.
+
+(* ---- function-valued expressions and the statements before the result of a function that returns a function ---- *)
+
+Lemma noab_mapM n e args :
+  (forall a, In a args -> forall st r st', SyltSem.eval n e a st = (r, st') -> noab r) ->
+  forall st r st', SyltSem.mapM (SyltSem.eval n e) args st = (r, st') -> noab r.
+Proof.
+  induction args as [|a args IH]; intros Hall st r st' H; cbn [SyltSem.mapM] in H.
+  - inversion H; subst; exact I.
+  - eapply noab_bind; [exact H | intros ? ? Hn; eapply (Hall a); [left; reflexivity | exact Hn] |].
+    intros y st1 _ H'. eapply noab_bind; [exact H' | intros ? ? Hn; eapply IH; [intros a' Hin; apply Hall; right; exact Hin | exact Hn] |].
+    intros ys st2 _ H''. inversion H''; subst; exact I.
+Qed.
+
+Lemma noexit_fexpr_noab n : forall k e x st r st', noexit_fexpr k x = true -> SyltSem.eval n e x st = (r, st') -> noab r.
+Proof.
+  induction n as [|n IH]; intros k e x st r st' Hf Hev.
+  - cbn in Hev. inversion Hev; subst; exact I.
+  - destruct k as [|k]; [discriminate|].
+    destruct x; try discriminate Hf; cbn [noexit_fexpr] in Hf; cbn [SyltSem.eval] in Hev.
+    + (* ERead *)
+      destruct (SyltSem.lookup e var); [|inversion Hev; subst; exact I].
+      unfold SyltSem.read_cell in Hev. destruct (nth_error (SyltSem.cells st) n0); inversion Hev; subst; exact I.
+    + (* ECall *)
+      destruct x; try discriminate Hf.
+      eapply noab_bind; [exact Hev | |].
+      * intros a0 st1 H. destruct n as [|n']; [cbn in H; inversion H; subst; exact I|]. cbn [SyltSem.eval] in H.
+        destruct (SyltSem.lookup e var); [|inversion H; subst; exact I].
+        unfold SyltSem.read_cell in H. destruct (nth_error (SyltSem.cells st) n); inversion H; subst; exact I.
+      * intros fv st1 _ H. eapply noab_bind; [exact H | |].
+        -- intros a0 st2 H'. eapply noab_mapM; [|exact H']. intros a Hin st0 r0 st3 Ha.
+           rewrite forallb_forall in Hf. specialize (Hf a Hin). apply orb_prop in Hf as [Hf|Hf].
+           ++ eapply noexit_noab; eassumption.
+           ++ eapply IH; eassumption.
+        -- intros avs st2 _ H'. eapply noab_apply; exact H'.
+    + (* EFunction *)
+      unfold SyltSem.bind, SyltSem.new_clos in Hev. inversion Hev; subst; exact I.
+Qed.
+
+Lemma simple_init_noab : forall init n k e st r st',
+  forallb (simple_init_stmt k) init = true -> SyltSem.exec_block n e init st = (r, st') -> noab r.
+Proof.
+  induction init as [|s init IH]; intros n k e st r st' Hs Hev; (destruct n as [|n]; [cbn in Hev; inversion Hev; subst; exact I|]).
+  - cbn in Hev. inversion Hev; subst; exact I.
+  - cbn [forallb] in Hs. apply andb_prop in Hs as [Hs1 Hs2]. cbn [SyltSem.exec_block] in Hev.
+    eapply noab_bind; [exact Hev | | intros e1 st1 _ H; cbv beta in H; eapply IH; eassumption].
+    intros a0 st1 Hx. destruct s; try discriminate Hs1.
+    destruct n as [|n]; [cbn in Hx; inversion Hx; subst; exact I|]. cbn [SyltSem.exec] in Hx.
+    eapply noab_bind; [exact Hx | intros ? ? Hn; inversion Hn; subst; exact I |]. intros c st2 _ H2. cbv beta zeta in H2.
+    eapply noab_bind; [exact H2 | | intros v st3 _ H3].
+    + intros a1 st3 Hv. cbv beta in Hv. unfold simple_init_stmt in Hs1.
+      destruct value.
+      all: try exact (noexit_noab n k _ _ _ _ _ Hs1 Hv).
+      eapply (noexit_fexpr_noab n 1); [|exact Hv]. reflexivity.
+    + eapply noab_bind; [exact H3 | intros ? ? Hn; inversion Hn; subst; exact I |]. intros ? st4 _ H4. inversion H4; subst; exact I.
+Qed.
